@@ -1,6 +1,7 @@
 /-
   UVerif.Model.PositConv — conversions between posits and native numbers
-  (posit::operator=(native), value<fbits>::operator=(…), convert_ieee754, to_double/to_float/to_long_double, to_int…).
+  (posit::operator=(native), value<fbits>::operator=(…), convert_ieee754, to_double/to_float/to_long_double,
+  to_integer<Int> behind to_short … to_ulong_long).
 -/
 import UVerif.Model.Posit
 
@@ -67,7 +68,7 @@ def intKind (kind : String) (w : Nat) : Option (Nat × Int × Int) :=
   | "i64" => let v := toSigned 64 w; some (63, v, v)
   | "u16" => let v : Int := (w % 2 ^ 16 : Nat); some (16, v, v)
   | "u32" => let v : Int := (w % 2 ^ 32 : Nat); some (32, v, v)
-  | "ul64" => some (64, (w : Int), (w : Int))           -- value::operator=(unsigned long) → unsigned long long (after fix e9a7aab)
+  | "ul64" => some (64, (w : Int), (w : Int))           -- value::operator=(unsigned long) → unsigned long long (after fix 55c92e8)
   | "u64" => some (64, (w : Int), (w : Int))
   | _ => none
 
@@ -94,36 +95,44 @@ def toX87 (n es a : Nat) : Nat × Nat :=
     let v := decode n es a
     (((if v.sign then 1 else 0) <<< 15) ||| (v.scale + 16383).toNat, 2 ^ 63 ||| (v.frac <<< (63 - v.fb)))
 
-/-- the value `to_double()` computes: s · r · e · (1.0 + double(fraction.value())), with the two roundings that
-    happen when the fraction has more than 52 bits (r and e are powers of two, the products are exact in range). -/
-def toDoubleVal (n es a : Nat) : Option Rat :=
-  let a := a % 2 ^ n
-  if a = 0 then some 0
-  else if a = 2 ^ (n - 1) then none
-  else
-    let v := decode n es a
-    let f : Rat := rndSig 53 ((v.frac : Rat) / ((2 ^ v.fb : Nat) : Rat))
-    let m : Rat := rndAbs (-52) (1 + f)
-    let r := m * pow2 v.scale
-    some (if v.sign then -r else r)
-
-/-- `to_long_double()`: 1.0l + fraction.value() with a 64-bit significand -/
-def toLongDoubleVal (n es a : Nat) : Option Rat :=
-  let a := a % 2 ^ n
-  if a = 0 then some 0
-  else if a = 2 ^ (n - 1) then none
-  else
-    let v := decode n es a
-    let f : Rat := rndSig 64 ((v.frac : Rat) / ((2 ^ v.fb : Nat) : Rat))
-    let m : Rat := rndAbs (-63) (1 + f)
-    let r := m * pow2 v.scale
-    some (if v.sign then -r else r)
-
-/-- `to_int()` = int(to_double()), `to_long_long()` = (long long)(to_long_double()), …: C++ cast = truncation -/
-def toIntVia (n es : Nat) (kind : String) (a : Nat) : Option Int :=
+/-- `numeric_limits<Int>::digits` and signedness of the integer kinds of the harness -/
+def intDigits (kind : String) : Option (Nat × Bool) :=
   match kind with
-  | "i32" | "u32" => (toDoubleVal n es a).map truncZ
-  | "i64" | "u64" => (toLongDoubleVal n es a).map truncZ
+  | "i16" => some (15, true)
+  | "u16" => some (16, false)
+  | "i32" => some (31, true)
+  | "u32" => some (32, false)
+  | "i64" => some (63, true)
+  | "u64" => some (64, false)
   | _ => none
+
+/-- the loop of `to_integer`: the hidden bit followed by the top `s` fraction bits, zeros once the `fb` fraction
+    bits are used up — i.e. the significand `2^fb + frac` shifted right by `fb − s`, or left by `s − fb` -/
+def intMagnitude (fb frac s : Nat) : Nat :=
+  if s ≤ fb then (2 ^ fb + frac) >>> (fb - s) else (2 ^ fb + frac) <<< (s - fb)
+
+/-- `to_integer<Int>()` (posit_impl.hpp, after the repair of D23): the integer part of the value from the DECODED FIELDS,
+    no floating-point detour. `digits` = numeric_limits<Int>::digits, `sgn` = Int is a signed type. The result is the
+    value of the returned Int object. `none` = NaR (the throwing build throws posit_nar, the quiet build still casts
+    the NaN of to_double()/to_float()/to_long_double(), which is undefined; the harness never executes it). -/
+def toInteger (n es digits : Nat) (sgn : Bool) (a : Nat) : Option Int :=
+  let a := a % 2 ^ n
+  if a = 0 then some 0                                  -- `if (iszero()) return 0;`
+  else if a = 2 ^ (n - 1) then none
+  else
+    let v := decode n es a
+    if v.scale < 0 then some 0                          -- `if (scale < 0) return 0;`
+    else if v.scale ≥ (digits : Int) then               -- saturate: numeric_limits<Int>::min() / max()
+      some (if v.sign then (if sgn then -((2 ^ digits : Nat) : Int) else 0) else ((2 ^ digits : Nat) : Int) - 1)
+    else
+      let mag := intMagnitude v.fb v.frac v.scale.toNat
+      -- `Int integer = Int(magnitude); return (_sign ? Int(0 - integer) : integer);` — unsigned types wrap
+      some (if v.sign then (if sgn then -(mag : Int) else ((2 ^ digits : Nat) : Int) - (mag : Int)) else (mag : Int))
+
+/-- `to_short()` … `to_ulong_long()` = `to_integer<…>()` for the integer kinds of the harness -/
+def toIntKind (n es : Nat) (kind : String) (a : Nat) : Option Int :=
+  match intDigits kind with
+  | some (digits, sgn) => toInteger n es digits sgn a
+  | none => none
 
 end UVerif.Posit
